@@ -57,21 +57,72 @@ func runC12(c *Ctx, r *Report) {
 					// the record's fields is behind the update, or on a path where no update happens
 					lateField := ""
 					nParse := 0
+					parseAt := map[*ssa.BasicBlock]ssa.CallInstruction{}
 					for _, ci := range allCalls(fn) {
-						f := ci.Common().StaticCallee()
-						if f == nil || f.Name() != "parseDataFields" {
-							continue
-						}
-						nParse++
-						pb := ci.Block()
-						behind := b == pb || b.Dominates(pb)
-						notCompressed := domByBoolEdge(fn, pb, false, func(v ssa.Value) bool { p, ok := v.(*ssa.Parameter); return ok && p.Name() == "compressed" })
-						noRef := domByCmpConst(fn, pb, "*d.timestamp", token.EQL, 0, true) || domByCmpConst(fn, pb, "*d.timestamp", token.NEQ, 0, false)
-						if !behind && !notCompressed && !noRef {
-							lateField = c.pos(ci.Pos())
+						if f := ci.Common().StaticCallee(); f != nil && f.Name() == "parseDataFields" {
+							nParse++
+							parseAt[ci.Block()] = ci
 						}
 					}
-					r.check(lateField == "" && nParse > 0, "C12-R3-guards", key+"/fields-after-update", pos, "every parseDataFields call is behind the compressed update or on a path without one", "the record's fields are parsed at "+lateField+" before the compressed header has advanced the reference: an explicit timestamp field of that record is then overwritten by the header's value, and a local timestamp in it is resolved against the stale reference")
+					// walk from the entry along the paths on which an update is due (compressed, reference present),
+					// stopping at the update: no parseDataFields call may be met
+					isCompressed := func(v ssa.Value) bool { p, ok := v.(*ssa.Parameter); return ok && p.Name() == "compressed" }
+					isNoRef := func(v ssa.Value) (bool, bool) { // (is a test of timestamp against 0, true edge means "no reference")
+						bo, ok := v.(*ssa.BinOp)
+						if !ok || (bo.Op != token.EQL && bo.Op != token.NEQ) || pathOf(bo.X) != "*d.timestamp" {
+							return false, false
+						}
+						k, ok := bo.Y.(*ssa.Const)
+						if !ok || k.Value == nil || k.Int64() != 0 {
+							return false, false
+						}
+						return true, bo.Op == token.EQL
+					}
+					seen := map[*ssa.BasicBlock]bool{}
+					var walk func(x *ssa.BasicBlock)
+					walk = func(x *ssa.BasicBlock) {
+						if seen[x] || lateField != "" {
+							return
+						}
+						seen[x] = true
+						for _, ins := range x.Instrs {
+							if ins == ssa.Instruction(st) {
+								return // the update: everything behind it is fine
+							}
+							if ci, ok := ins.(ssa.CallInstruction); ok && parseAt[x] == ci {
+								lateField = c.pos(ci.Pos())
+								return
+							}
+						}
+						if ifi, ok := x.Instrs[len(x.Instrs)-1].(*ssa.If); ok {
+							cond := ifi.Cond
+							neg := false
+							if u, isNot := cond.(*ssa.UnOp); isNot && u.Op == token.NOT {
+								cond, neg = u.X, true
+							}
+							if isCompressed(cond) {
+								if neg {
+									walk(x.Succs[1])
+								} else {
+									walk(x.Succs[0])
+								}
+								return
+							}
+							if is, trueIsNoRef := isNoRef(cond); is {
+								if trueIsNoRef != neg {
+									walk(x.Succs[1])
+								} else {
+									walk(x.Succs[0])
+								}
+								return
+							}
+						}
+						for _, s := range x.Succs {
+							walk(s)
+						}
+					}
+					walk(fn.Blocks[0])
+					r.check(lateField == "" && nParse > 0, "C12-R3-guards", key+"/fields-after-update", pos, "on every path on which a compressed update is due (compressed header, reference present) no parseDataFields call comes before the update", "the record's fields are parsed at "+lateField+" before the compressed header has advanced the reference: an explicit timestamp field of that record is then overwritten by the header's value, and a local timestamp in it is resolved against the stale reference")
 					// formula
 					got := pathOf(st.Val)
 					want := []string{
